@@ -1,6 +1,8 @@
 import ElvModel.Go.Driver
 import ElvModel.C39.Lockset
 import ElvModel.C39.Programs
+import ElvModel.C39.Concurrent
+import ElvModel.C39.CheckThenAct
 /-
 C39 driver.  Ops:
 
@@ -9,9 +11,17 @@ C39 driver.  Ops:
       → `immutable` | `lock <m>` | `unprotected <site name>`
       (the lockset obligation `checkVar` on the regenerated table of sites)
 
+  cta <var> <entry> <entry> …
+      entry = name|i or d|direct|excl|section|guard or -|guard direct|guard section|reachable from use|construction
+      → `tas` | `split <entry name>` | `blind <entry name>` | `no-insert`
+      (the check-then-act obligation `ctaCheck` on the regenerated table, CheckThenAct.lean)
+
   dyn <mode> <procs> <goroutine> <goroutine> …
       → the result of running the goroutines' actions sequentially
-      (`showResult`), see Programs.lean for the program language.
+      (`showResult`), see Programs.lean for the program language.  The same
+      programs are also run, goroutine by goroutine, on the CONCURRENT semantics
+      (Concurrent.lean, `serialRun` in the world of the harness); the line is
+      `MODEL-MISMATCH …` if the two sequential results differ (or `FUEL`).
 -/
 namespace C39
 open Go
@@ -152,13 +162,60 @@ def pActions : Nat → List Char → Option (List Action)
 def parseGoroutine (s : String) : Option (List Action) :=
   pActions (s.length + 1) s.toList
 
+/-! ### cta ops -/
+
+def parseCta (s : String) : Option CtaSite :=
+  match s.splitOn "|" with
+  | [name, k, direct, excl, sec, guard, gd, gs, reach, ini] =>
+    match sec.toNat?, gs.toNat? with
+    | some sec, some gs =>
+      if k == "i" || k == "d" then
+        some { name := name, del := k == "d", direct := direct == "1", excl := excl == "1", sec := sec,
+               guard := if guard == "-" then none else some (guard, gd == "1", gs),
+               reach := reach == "1", init := ini == "1" }
+      else none
+    | _, _ => none
+  | _ => none
+
+def ctaLine (entries : List String) : String :=
+  match entries.mapM parseCta with
+  | none => "bad-op"
+  | some tbl => (ctaCheck tbl).show
+
+/-! ### dyn ops: the sequential run of the concurrent semantics, in the same format -/
+
+def concResult (a : Action) (r : Conc.Result) : String :=
+  match a with
+  | .check n => checkAnswer n ++ ":-"
+  | _ =>
+    if r.ok then
+      "ok:" ++ showOuts (r.outs.map fun o => match o with | some v => v | none => 0)
+    else "compile-error:-"
+
+def zipResults : List Action → List Conc.Result → List String
+  | a :: as, r :: rs => concResult a r :: zipResults as rs
+  | _, _ => []
+
+def concLine (progs : List (List Action)) : String :=
+  match Conc.serialRun Conc.harnessWorld 100000 Conc.zero progs with
+  | none => "FUEL"
+  | some c =>
+    "c=" ++ ",".intercalate ((List.range nCounters).map (fun i => toString (c.acc (.cnt i)))) ++
+    " f=" ++ String.join ((List.range nFlags).map (fun n => if c.acc (.flg n) != 0 then "1" else "0")) ++
+    " m=" ++ String.join ((List.range nMods).map (fun n => if c.acc (.load n) != 0 then "1" else "0")) ++
+    " e=" ++ "|".intercalate ((List.zipWith (fun as (g : Conc.GState) => ";".intercalate (zipResults as g.results)) progs c.gs))
+
 def dynLine (gs : List String) : String :=
   match gs.mapM parseGoroutine with
   | none => "bad-op"
-  | some progs => showResult progs
+  | some progs =>
+    let a := showResult progs
+    let b := concLine progs
+    if a == b then a else "MODEL-MISMATCH seq=" ++ a ++ " conc=" ++ b
 
 def stepLine : List String → String
   | "static" :: x :: cands :: sites => staticLine x cands sites
+  | "cta" :: _x :: entries => ctaLine entries
   | "dyn" :: _mode :: _procs :: gs => dynLine gs
   | _ => "bad-op"
 
